@@ -394,6 +394,12 @@ func (c *FnCtx) useContract(fr *Frame, st *State, ct *FuncContract, callee *ssa.
 	old := st.clone()
 	// havoc what the callee may modify
 	c.applyModifiesEnv(fr, st, pre, ct)
+	// the callee may allocate: allocation only grows
+	{
+		ms := newModSet()
+		ms.heaps["alloc"] = SInt
+		c.havoc(st, fr, ms, "callee allocation")
+	}
 	var res SV
 	if rt != nil {
 		res = c.freshValue(rt, "r$"+name)
@@ -458,6 +464,16 @@ func (c *FnCtx) applyModifiesEnv(fr *Frame, st *State, env *SpecEnv, ct *FuncCon
 			ms.all = true
 			c.havoc(st, fr, ms, "modifies *")
 			c.noteWholeWrite(st, "*")
+		case m.Text == "atomic(*)":
+			// every atomic location (value and ghost contribution counters)
+			ms := newModSet()
+			ms.atomics = true
+			for name, srt := range c.heapNames {
+				if strings.HasPrefix(name, "atomicval$") {
+					ms.heaps[name] = srt
+				}
+			}
+			c.havoc(st, fr, ms, "modifies atomic(*)")
 		case m.Expr == nil && strings.HasSuffix(m.Text, ".*"):
 			// all fields of one object
 			x, err := parseSpecExpr(strings.TrimSuffix(m.Text, ".*"))
@@ -493,11 +509,41 @@ func (c *FnCtx) applyModifiesEnv(fr *Frame, st *State, env *SpecEnv, ct *FuncCon
 						c.havocAtomic(st, env, call.Args[0])
 						return
 					}
+					if id, ok := call.Fun.(*ast.Ident); ok && id.Name == "mapof" && len(call.Args) == 1 {
+						c.havocMap(st, env, call.Args[0])
+						return
+					}
 				}
 				loc := env.evalLoc(m.Expr)
 				c.havocLoc(st, loc, 0)
 			}()
 		}
+	}
+}
+
+// havocMap: `modifies map(m)`: the contents of one map object.
+func (c *FnCtx) havocMap(st *State, env *SpecEnv, x ast.Expr) {
+	v, t := env.eval(x)
+	m, ok := t.Underlying().(*types.Map)
+	if !ok {
+		env.fail("map(): not a map")
+	}
+	ref, _ := env.scalar(v, t)
+	for name, srt := range c.mapHeapNames(m) {
+		h := c.heapGet(st, name, srt)
+		var inner Sort
+		if name == "maplen" {
+			inner = SInt
+		} else {
+			// (Array Int X) -> X
+			inner = Sort(strings.TrimSuffix(strings.TrimPrefix(string(srt), "(Array Int "), ")"))
+		}
+		fv := c.vc.Fresh("mod$map", inner)
+		if name == "maplen" {
+			c.vc.Assert(App(SBool, ">=", fv, IntLit(0)))
+		}
+		c.heapSet(st, name, c.vc.Name("h", Store(h, ref, fv)))
+		c.noteWrite(st, name, &Loc{Prefix: name, Idx: ref})
 	}
 }
 
@@ -653,12 +699,12 @@ func (fs *frameSpec) allows(c *FnCtx, st *State, heapName string, loc *Loc) Term
 	}
 	var alts []Term
 	// freshly allocated objects may always be written
-	al0 := c.vc.Const("H0$alloc", SArr(SInt, SBool))
+	al0 := c.allocInit()
 	base := loc.Idx
 	if root, ok := c.subRoots[base.S]; ok {
 		base = root
 	}
-	alts = append(alts, Not(Select(al0, base, SBool)))
+	alts = append(alts, App(SBool, ">=", base, al0))
 	for _, l := range fs.locs[heapName] {
 		if (l.Idx2 == nil) != (loc.Idx2 == nil) {
 			alts = append(alts, Eq(l.Idx, loc.Idx))
@@ -690,6 +736,7 @@ func (c *FnCtx) buildFrameSpec(fr *Frame, st *State) {
 		switch {
 		case m.Text == "*":
 			fs.all = true
+		case m.Text == "atomic(*)":
 		case m.Expr == nil && strings.HasSuffix(m.Text, ".*"):
 			x, err := parseSpecExpr(strings.TrimSuffix(m.Text, ".*"))
 			if err != nil {
@@ -720,6 +767,16 @@ func (c *FnCtx) buildFrameSpec(fr *Frame, st *State) {
 						if structOf(loc.T) == nil {
 							for _, lf := range c.leaves(loc.T) {
 								fs.locs[loc.Prefix+lf.Suffix] = append(fs.locs[loc.Prefix+lf.Suffix], *loc)
+							}
+						}
+						return
+					}
+					if id, ok := call.Fun.(*ast.Ident); ok && id.Name == "mapof" && len(call.Args) == 1 {
+						v, t := env.eval(call.Args[0])
+						if m, ok := t.Underlying().(*types.Map); ok {
+							ref, _ := env.scalar(v, t)
+							for name := range c.mapHeapNames(m) {
+								fs.locs[name] = append(fs.locs[name], Loc{Prefix: name, Idx: ref})
 							}
 						}
 						return
